@@ -225,7 +225,10 @@ private:
         m_base_dom(std::move(base_dom)),
         m_rgn_env(std::move(rgn_env)), m_tag_env(std::move(tag_env)),
         m_alloc_env(std::move(alloc_env)),
-        m_rgn_equiv_classes(std::move(rgn_equiv_classes)) {}
+        m_rgn_equiv_classes(std::move(rgn_equiv_classes)) {
+    // ghost_var_man was built from the manager of another value
+    m_ghost_var_man.set_type_fn(get_type_fn());
+  }
 
   using base_dom_binop_t = std::function<base_abstract_domain_t(
       base_abstract_domain_t, base_abstract_domain_t)>;
@@ -665,6 +668,8 @@ public:
         m_rgn_equiv_classes(o.m_rgn_equiv_classes) {
     crab::CrabStats::count(domain_name() + ".count.copy");
     crab::ScopedCrabStats __st__(domain_name() + ".copy");
+    // the copied type function refers to o
+    m_ghost_var_man.set_type_fn(get_type_fn());
   }
   region_domain(region_domain_t &&o)
       : m_is_bottom(o.m_is_bottom),
@@ -673,7 +678,9 @@ public:
         m_rgn_env(std::move(o.m_rgn_env)),
         m_tag_env(std::move(o.m_tag_env)),
         m_alloc_env(std::move(o.m_alloc_env)),
-        m_rgn_equiv_classes(std::move(o.m_rgn_equiv_classes)) {}
+        m_rgn_equiv_classes(std::move(o.m_rgn_equiv_classes)) {
+    m_ghost_var_man.set_type_fn(get_type_fn());
+  }
 
   region_domain_t &operator=(const region_domain_t &o) {
     crab::CrabStats::count(domain_name() + ".count.copy");
@@ -681,6 +688,7 @@ public:
     if (this != &o) {
       m_is_bottom = o.m_is_bottom;
       m_ghost_var_man = o.m_ghost_var_man;
+      m_ghost_var_man.set_type_fn(get_type_fn());
       m_base_dom = o.m_base_dom;
       m_rgn_env = o.m_rgn_env;
       m_tag_env = o.m_tag_env;
@@ -694,6 +702,7 @@ public:
     if (this != &o) {
       m_is_bottom = std::move(o.m_is_bottom);
       m_ghost_var_man = std::move(o.m_ghost_var_man);
+      m_ghost_var_man.set_type_fn(get_type_fn());
       m_base_dom = std::move(o.m_base_dom);
       m_rgn_env = std::move(o.m_rgn_env);
       m_tag_env = std::move(o.m_tag_env);
